@@ -271,6 +271,11 @@ class MapToMolecule(Processor):
                     raise IOError(MultiblockError.format(self.node_to_block[node]))
 
                 correspondence = new_mol.merge_molecule(block)
+                # the atoms carry the residue id of the residue they are made
+                # for, whatever residue id the block itself is written with
+                if "from_itp" not in meta_molecule.nodes[node]:
+                    for atom in correspondence.values():
+                        new_mol.nodes[atom]["resid"] = resid_dict[node]
             # make the residue from the correspondence
             residue = _correspondence_to_residue(meta_molecule,
                                                  new_mol,
